@@ -156,6 +156,16 @@ CLAIMED["C16"] = dict(
            "use/definition correctness through arbitrary nesting (runtime facts about parser marks)."),
     note=_NOTE, technique="static analysis: sibling agreement of constructors, capture-before-consume dominance, per-variant get/set table from MIR + ADT facts")
 
+CLAIMED["C14"] = dict(
+    level=("Static three-way table agreement for the eight anchor wrappers: reserved name passed to deserialize_newtype_struct ↔ the "
+           "AnchorKind context the deserializer's arm for that name enters (with the node's own peeked anchor id) ↔ the anchor_store "
+           "accessors the wrapper's visitor uses ↔ the kind literal / store field each accessor's body touches (16 accessors, each "
+           "consistent with its name); strong wrappers store their allocation exactly once, weak wrappers never store and consume "
+           "the replayed node; the serializer allocates ids from the captured pointer in a pointer-keyed table, stages the "
+           "definition on first sight and the alias on later sights, and every wrapper writes the allocation's address (as_ptr) "
+           "as its first field; one identity scope per document. Not decided: pointer-equality classes after a round trip."),
+    note=_NOTE, technique="static analysis: multi-way name / kind / accessor / field table agreement extracted from MIR, define-then-alias dominance")
+
 NOT_APPLICABLE = {("C%02d" % i): _NB for i in range(1, 21) if ("C%02d" % i) not in CLAIMED}
 
 CLAIMED["C10"] = dict(
@@ -295,5 +305,15 @@ CLAIMED["C16"] = dict(
            "fallback location. Declared not applicable: that coordinates denote the same text position, span == node text, "
            "use/definition correctness through arbitrary nesting (runtime facts about parser marks)."),
     note=_NOTE, technique="static analysis: sibling agreement of constructors, capture-before-consume dominance, per-variant get/set table from MIR + ADT facts")
+
+CLAIMED["C14"] = dict(
+    level=("Static three-way table agreement for the eight anchor wrappers: reserved name passed to deserialize_newtype_struct ↔ the "
+           "AnchorKind context the deserializer's arm for that name enters (with the node's own peeked anchor id) ↔ the anchor_store "
+           "accessors the wrapper's visitor uses ↔ the kind literal / store field each accessor's body touches (16 accessors, each "
+           "consistent with its name); strong wrappers store their allocation exactly once, weak wrappers never store and consume "
+           "the replayed node; the serializer allocates ids from the captured pointer in a pointer-keyed table, stages the "
+           "definition on first sight and the alias on later sights, and every wrapper writes the allocation's address (as_ptr) "
+           "as its first field; one identity scope per document. Not decided: pointer-equality classes after a round trip."),
+    note=_NOTE, technique="static analysis: multi-way name / kind / accessor / field table agreement extracted from MIR, define-then-alias dominance")
 
 NOT_APPLICABLE = {("C%02d" % i): _NB for i in range(1, 21) if ("C%02d" % i) not in CLAIMED}
